@@ -506,6 +506,14 @@ class ExprMixin:
                 if lit in self.strs and l.t.eq(self.strs[lit]):
                     return T.scalar(T.VNAME, ctor(r.t))          # "N" + str(i), "E" + str(i)
             raise Unsupported("string concatenation other than 'N' + str(i) / 'E' + str(i)")
+        if isinstance(op, ast.Div) and isinstance(l.ty, T.Seq) and l.ty.e in (T.REAL, T.INT) and r.ty in (T.INT, T.REAL, T.BOOL):
+            # numpy: array / number, element-wise (no exception for a zero divisor: numpy warns and yields inf / nan, which the uninterpreted
+            # quotient leaves unspecified); assumed library contract
+            at = fresh("divided", z3.ArraySort(T.I, T.R))
+            k = fresh("k", T.I)
+            num = (lambda t: z3.ToReal(t)) if l.ty.e == T.INT else (lambda t: t)
+            self._assume(p, z3.ForAll([k], at[k] == TH.RDIV(num(l.at[k]), T.to_real(r)), patterns=[at[k]]))
+            return T.sv_seq(T.REAL, l.len, at)
         if isinstance(op, ast.Div) and all(isinstance(v.ty, T.Obj) and v.ty.cls == "NpArray2" for v in (l, r)):
             # matrix / column (numpy broadcasting): every cell of row i divided by the column's entry i; assumed library contract
             if not (z3.is_int_value(r.fields["_c"].t) and r.fields["_c"].t.as_long() == 1):
